@@ -197,8 +197,7 @@ def file_order(fs, call):
     return sorted(range(len(fs['reps'])), key=lambda i: fs['reps'][i]['r'])
 
 
-def factor(fs, rep, cfg, irw, nfct):
-    rec = record_data(dict(fs, nfct=nfct), rep, cfg)
+def factor(rec, irw, nfct):
     w = 1.0
     for ifct in range(nfct[irw]):
         x = rec['lnr'][irw][ifct]
@@ -224,8 +223,9 @@ def expected(fs, call, limit=None):
         ia = cfgs.index(a) if a else 0
         ib = cfgs.index(b) if b is not None else len(cfgs) - 1
         sel = list(range(ia, ib + 1, step))
+        recs = {k: record_data(dict(fs, nfct=nfct), rep, stored[k]) for k in sel}
         for irw in out:
-            out[irw][name] = {cfgs[k]: factor(fs, rep, stored[k], irw, nfct) for k in sel}
+            out[irw][name] = {cfgs[k]: factor(recs[k], irw, nfct) for k in sel}
     return out
 
 
